@@ -184,8 +184,12 @@ def run(P, R):
         R.check(r4, got == want[s], 'state %s -> %s' % (s, sorted(want[s])), 'result|ProcessStartCommand.on_event|%s' % s,
                 u.loc(), 'ProcessStartCommand.on_event maps %s to %s, expected %s' % (s, sorted(got), sorted(want[s])))
     succ_run = [fs for r, fs in table.get('RUNNING', []) if r == 'SUCCESS']
-    ok = len(succ_run) == 1 and any(isinstance(f, tuple) and f[1] and 'wait_exit' in f[0] and 'ignore_wait_exit' in f[0]
-                                    for f in succ_run[0])
+    # paths to SUCCESS for RUNNING: no wait_exit rule, or wait_exit ignored (one disjunctive fact or one path each)
+    W, I = 'self.process.rules.wait_exit', 'self.ignore_wait_exit'
+    paths = {frozenset(f for f in fs if isinstance(f, tuple) and ('wait_exit' in f[0])) for fs in succ_run}
+    ok = paths in ({frozenset({(W, False)}), frozenset({(W, True), (I, True)})},
+                   {frozenset({(W, False)}), frozenset({(I, True)})},
+                   {frozenset({('not %s or %s' % (W, I), True)})})
     R.check(r4, ok, 'RUNNING completes the start only without a pending wait_exit',
             'result|ProcessStartCommand.on_event|wait_exit', u.loc(), 'RUNNING -> SUCCESS is not conditioned by '
             '`not wait_exit or ignore_wait_exit`: %s' % [sorted(x) for x in succ_run])
@@ -292,9 +296,12 @@ def run(P, R):
     rs = [c for c in own_nodes(u.node) if isinstance(c, ast.Call) and call_text(c) == 'self._raise' and c.args
           and 'BAD_SUPVISORS_STATE' in ast.unparse(c.args[0])]
     sa_ = [c for c in own_nodes(u.node) if isinstance(c, ast.Call) and call_text(c) == 'self.supvisors.starter.start_applications']
-    ok = len(rs) == 1 and len(sa_) == 1 and rs[0].lineno < sa_[0].lineno and \
-        {tuple(f) for f in fm.at(rs[0])} == {('self.supvisors.state_modes.starting_identifiers or '
-                                              'self.supvisors.state_modes.stopping_identifiers', True)}
+    # the distribution is only reached with both Supvisors-wide sets empty; each refusal is caused by one of them
+    busy = {'self.supvisors.state_modes.starting_identifiers', 'self.supvisors.state_modes.stopping_identifiers'}
+    ok = bool(rs) and len(sa_) == 1 and all(c.lineno < sa_[0].lineno for c in rs) and \
+        {(b, False) for b in busy} <= {tuple(f) for f in fm.at(sa_[0])} and \
+        all(any(f[1] and f[0] in busy for f in fm.at(c)) for c in rs) and \
+        {f[0] for c in rs for f in fm.at(c) if f[1]} >= busy
     R.check(r7, ok, 'jobs in progress on any instance forbid a new distribution', 'restart_sequence|busy', u.loc(),
             'restart_sequence does not raise BAD_SUPVISORS_STATE under `state_modes.starting_identifiers or '
             'state_modes.stopping_identifiers` (found under %s)' % [sorted(tuple(f) for f in fm.at(c)) for c in rs])
